@@ -5,7 +5,7 @@ import vlib, dlvlib, rrlib
 def run(chk, replay=None):
     chk.rule = ("cases = every call/event sequence of length D over {send, recv, one poll of recv, drop, peer replies, unsolicited message, second peer joins} on a real "
                 "REQ socket and over {request from client 1, request from client 2 (with routing prefix), malformed request, recv, poll, drop, send} on a real REP socket, "
-                "enumerated by TLC (spec/GenSeq.tla), plus seeded random schedules of 1-4 lock-step clients against one REP with random segmentation; each trace judged by TLC "
+                "enumerated by TLC (spec/GenSeq.tla), plus REQ sends abandoned under back-pressure after {0, 5, 100, 2000} bytes followed by {a second send, recv}, plus seeded random schedules of 1-4 lock-step clients against one REP with random segmentation; each trace judged by TLC "
                 "against the lock-step / reply-routing monitor (TraceReqRep); the marker mechanisms are model-checked (ReqRep, RepSock); distinct = distinct scripts; non-trivial = all")
     chk.assumptions = ["TLC and CommunityModules are correct", "REQ behaviour after a malformed reply or a failed write is not judged (statement leaves it open)"]
     thorough = chk.tier == "thorough"
@@ -29,6 +29,9 @@ def run(chk, replay=None):
     chk.sample({"kind": "REP event sequence (TLC-enumerated)", "ops": [o["op"] for o in fam[len(fam) // 3]["ops"]]})
     for s in fam: chk.case(("rep", s["scen"]))
     rrlib.run_and_report(chk, fam, "c08-rep", ("C08/",))
+    ab = rrlib.req_abandoned_send_scripts(900000)
+    for s in ab: chk.case(("abandoned-send", s["tag"]))
+    rrlib.run_and_report(chk, ab, "c08-abandoned", ("C08/", "C07/req-wire"))
     rnd = rrlib.random_rep_scripts(rng, 1500 if thorough else 200, scen + 1)
     for s in rnd: chk.case(("rnd", json.dumps(s["ops"])[:1500]))
     rrlib.run_and_report(chk, rnd, "c08-rnd", ("C08/",))
